@@ -19,12 +19,12 @@ theorem tasksForRefs_frame {s s' : Sys} (hf : Frame s s') (jo : JobObj) (refs : 
   congr 1
   funext ref
   unfold getTaskForRefConfirmed getTaskForRef liveGetTask
-  rw [hf.podCache, hf.pods]
+  rw [hf.podCache, hf.pods, hf.clock]
 
 theorem finalizerTasks_frame {s s' : Sys} (hf : Frame s s') (jo : JobObj) (rj : Job) :
     finalizerTasks s' jo rj = finalizerTasks s jo rj := by
   unfold finalizerTasks adoptUnrecordedTasks
-  rw [tasksForRefs_frame hf, hf.podCache]
+  rw [tasksForRefs_frame hf, hf.podCache, hf.clock]
 
 /-- `finalizerTasks` reads the Job only through the task list of its status -/
 theorem finalizerTasks_congr (s : Sys) (jo : JobObj) {rj rj' : Job} (h : rj'.status.tasks = rj.status.tasks) :
